@@ -157,6 +157,7 @@ def _features_for(p, k, rng):
         cand.append(("half-join", [rel(1, 2), rel(L + 1, 2)], "misc_feature"))
         cand.append(("in-source-typed", [rel(1, 3)], "source"))
         # features spanning exactly the retained stretch, also source-typed ones (what the generated provenance feature spans)
+        cand.append(("in-marker", [rel(2, 0)], "misc_feature"))          # a between-bases marker (zero-length location)
         cand.append(("whole-source-typed", [rel(0, L)], "source"))
         cand.append(("whole-source-typed-rev", [rel(0, L, -1)], "source"))
         cand.append(("whole-join", [rel(0, 2), rel(2, L - 2)], "source" if rng.random() < 0.5 else "misc_feature"))
